@@ -99,6 +99,36 @@ def spec_stop(total, minimum, tc_none, tc, tp_none, tp, s, f):
     return z3.Or(s + f == total, s >= minimum, z3.Not(spec_continue(total, tc_none, tc, tp_none, tp, f)))
 
 
+def complete_executor(eng, st, self_):
+    """the symbolic ConcurrentExecutor of a contract gets every field the REAL constructor creates and the contract did not set: the constructor is run on a
+    scratch object with arbitrary arguments and the missing fields are copied over (private caches, flags a refactoring added, ...).  The fields a contract
+    sets stay the arbitrary values it chose.  If the constructor cannot be run the object stays as it is (a read of a missing field then ends the check undecided)."""
+    P = eng.program
+    cls = P.cls("concurrency.executor.ConcurrentExecutor")
+    init = cls.find_method("__init__")
+    if init is None:
+        return
+    try:
+        n = z3.Int(fresh_name("n_executables"))
+        st.assume(n >= 0)
+        exes = st.alloc("list", {"__kind__": "glist", "len": n, "elem": st.alloc("opaque:Executable", {})})
+        cc_cls = P.cls("config.CompletionConfig")
+        cfg = st.alloc(cc_cls, {"min_successful": None, "tolerated_failure_count": None, "tolerated_failure_percentage": None})
+        tmp = st.alloc(cls, {})
+        n_tr, n_pc = len(st.trace), len(st.pc)
+        res = eng.call_func(init, [tmp, exes, None, cfg, fresh("any", "sub_top"), fresh("any", "sub_iter"), "p-", None], {}, st)
+        if len(res) != 1 or res[0][0] != "val" or res[0][2] is not st or len(st.trace) != n_tr:
+            return
+        have = st.get(self_)
+        # the contracts are about an executor in an ARBITRARY reachable state, not a freshly constructed one: a field the contract does not model is
+        # present but unmodelled (any use of it ends the check undecided); it is NOT given the constructor's initial value
+        extra = {k_: st.alloc("opaque:Unmodelled", {"__field__": k_}) for k_ in st.get(tmp) if k_ not in have}
+        if extra:
+            st.put(self_, dict(have, **extra))
+    except Unsupported:
+        return
+
+
 def counters_obj(eng, st):
     P = eng.program
     total, minimum, s, f = (z3.Int(n) for n in ("total", "min_successful", "success", "failure"))
@@ -369,6 +399,7 @@ def suspend_decision(chk, prefix="C07"):
         return s.alloc(ews, {"_status": Sym("enum", stat(i), bs_cls), "_suspend_until": mk_opt(unone(i), Sym("real", until(i))), "executable": s.alloc("opaque:Executable", {})})
     lst = st.alloc("list", {"__kind__": "flist", "len": n, "elem": elem})
     self_ = st.alloc(P.cls("concurrency.executor.ConcurrentExecutor"), {"executables_with_state": lst})
+    complete_executor(eng, st, self_)
 
     def active(i):
         return z3.Or(stat(i) == C["PENDING"], stat(i) == C["RUNNING"])
@@ -444,6 +475,7 @@ def on_task_complete(chk, prefix, want):
                          "executable": st.alloc(P.cls("concurrency.models.Executable"), {"index": fresh("int", "index"), "func": OpaqueFn("branch_func")})})
     ev = st.alloc("opaque:Event", {})
     self_ = st.alloc(P.cls("concurrency.executor.ConcurrentExecutor"), {"counters": counters, "_completion_event": ev, "_suspend_exception": None, "_fatal_exception": None, "executables_with_state": st.alloc("list", {"__kind__": "list", "items": (exe,)})})
+    complete_executor(eng, st, self_)
     sr_cls = P.cls("concurrency.models.SuspendResult")
     st.ghost["executor"] = self_
 
@@ -558,6 +590,7 @@ def create_result_items(chk, prefix="C09"):
     els = [sym_ews(eng, st, f"b{i}", idx[i]) for i in range(2)]
     cfg = st.alloc("opaque:CompletionConfig", {})
     self_ = st.alloc(P.cls(CE), {"executables_with_state": st.alloc("list", {"__kind__": "list", "items": tuple(els)}), "completion_config": cfg})
+    complete_executor(eng, st, self_)
 
     def from_items(eng_, s, args, kwargs):
         s.emit("from_items", items=args[1] if len(args) > 1 else kwargs.get("items"), cfg=args[2] if len(args) > 2 else kwargs.get("completion_config"))
@@ -606,6 +639,7 @@ def replay_items(chk, prefix="C16"):
     exes = [st.alloc(P.cls("concurrency.models.Executable"), {"index": idx[i], "func": OpaqueFn("branch_func")}) for i in range(2)]
     cfg = st.alloc("opaque:CompletionConfig", {})
     self_ = st.alloc(P.cls(CE), {"executables": st.alloc("list", {"__kind__": "list", "items": tuple(exes)}), "completion_config": cfg})
+    complete_executor(eng, st, self_)
     ctx = st.alloc("opaque:DurableContext", {})
     state = st.alloc("opaque:ExecutionState", {})
     recs = {}
@@ -748,6 +782,7 @@ def execute_structure(chk, prefix="C09"):
         ev = st.alloc("opaque:Event", {})
         self_ = st.alloc(P.cls(CE), {"executables": st.alloc("list", {"__kind__": "list", "items": tuple(exes)}), "max_concurrency": mc, "_completion_event": ev, "_suspend_exception": None, "_fatal_exception": None,
                                      "executables_with_state": st.alloc("list", {"__kind__": "list", "items": ()}), "completion_config": st.alloc("opaque:CompletionConfig", {})})
+        complete_executor(eng, st, self_)
         st.ghost["self"] = self_
         ts_cls = P.cls("concurrency.executor.TimerScheduler")
         orig = eng.construct
@@ -822,6 +857,7 @@ def item_in_child_context(chk, prefix="C08"):
     st_cls = P.cls("lambda_service.OperationSubType")
     self_ = st.alloc(P.cls(CE), {"name_prefix": fresh("str", "name_prefix"), "item_serdes": eng.sym_of_type("str | None", "item_serdes", st), "serdes": eng.sym_of_type("str | None", "serdes", st),
                                  "sub_type_iteration": fresh("enum", "sub_type_iteration", st_cls), "summary_generator": OpaqueFn("batch_summary_generator")})
+    complete_executor(eng, st, self_)
 
     class H(ExecHooks):
         def opaque_call(self, eng_, s, fn, args, kwargs):
@@ -900,6 +936,7 @@ def resubmitter_total(chk, prefix="C06"):
     chk.function(CE + ".execute.<locals>.resubmitter", "verified")
     ev = st.alloc("opaque:Event", {})
     self_ = st.alloc(P.cls(CE), {"_completion_event": ev, "_suspend_exception": None, "_fatal_exception": None})
+    complete_executor(eng, st, self_)
     state = st.alloc("opaque:ExecutionState", {})
 
     class H(ExecuteHooks):
@@ -952,6 +989,7 @@ def batch_replay_consistency(chk, prefix="C02"):
     exe = st1.alloc(P.cls("concurrency.models.Executable"), {"index": fresh("int", "index"), "func": OpaqueFn("branch_func")})
     ews = st1.alloc(P.cls("concurrency.models.ExecutableWithState"), {"executable": exe, "_status": enum_member(bs_cls, "FAILED"), "_result": None, "_is_result_set": False, "_error": cre, "_future": None, "_suspend_until": None})
     self_ = st1.alloc(P.cls(CE), {"executables_with_state": st1.alloc("list", {"__kind__": "list", "items": (ews,)}), "completion_config": st1.alloc("opaque:CompletionConfig", {})})
+    complete_executor(eng, st1, self_)
 
     def from_items(eng_, s, args, kwargs):
         s.emit("from_items", items=args[1])
